@@ -46,6 +46,7 @@ class Check:
         self.extra = {}
         self.tus = 0
         self.functions_analysed = set()
+        self.vacuous = []
 
     # ---- recording --------------------------------------------------------------------------
     def rule(self, rid, text):
@@ -70,7 +71,9 @@ class Check:
     def count(self, what, n, minimum=None):
         self.counts[what] = n
         if minimum is not None and n < minimum:
-            raise AnalysisBroken('%s: found %d instance(s), confirmed minimum is %d — the rule would pass vacuously' % (what, n, minimum))
+            # decided at the end: when the same run also reports concrete violations, those are the verdict (the shrinkage is
+            # their consequence); a shrunken instance set with nothing to report would be a vacuous pass → analysis broken
+            self.vacuous.append('%s: found %d instance(s), confirmed minimum is %d — the rule would pass vacuously' % (what, n, minimum))
 
     def note(self, s):
         self.notes.append(s)
@@ -87,6 +90,8 @@ class Check:
                     hit = k
                     break
             (kn if hit else new).append((f, hit))
+        if self.vacuous and not new and not broken:
+            broken = '; '.join(self.vacuous)
         lines = []
         for f, k in kn:
             lines.append('KNOWN-FINDING: property=%s %s %s key=%s — %s' % (self.pid, f['rule'], f['fn'], f['key'], k['what']))
@@ -137,7 +142,7 @@ class Check:
             'functions_with_obligations': len(self.functions_analysed),
             'trusted_base': self.trusted,
             'exhaustive': broken is None,
-            'notes': self.notes,
+            'notes': self.notes + self.vacuous,
         }
         cov.update(self.extra)
         if broken:
